@@ -76,6 +76,68 @@ def gen_pairs(ctx):
     return pairs
 
 
+# Characters whose sequences are related by a Unicode EQUIVALENCE without being equal as sequences of code points: base letters and
+# combining marks with precomposed twins, conjoining Hangul jamo and precomposed syllables, singleton decompositions (OHM / ANGSTROM /
+# KELVIN SIGN), a composition exclusion (U+0958, which NFC itself decomposes), compatibility characters (ligature, fullwidth, circled,
+# mathematical bold - astral -, micro sign) and letters with special case mappings (sharp s, long s, dotted / dotless i, final sigma).
+# LIKE is defined on characters: "_ stands for exactly one character, every other character only for itself" - so two canonically
+# equivalent but different sequences do NOT match each other, and a base letter followed by a combining mark is TWO characters.
+EQUIV_ATOMS = ['e', 'a', 'o', 'A', 'K', 'k', 's', 'S', 'i', 'I', 'f', 'q', '\u0301', '\u0308', '\u030a', '\u0323', '\u0307', '\u0327',
+               '\u00e9', '\u00e4', '\u00c5', '\u00e5', '\u1e69', '\u1e63', '\u00e7', '\u212b', '\u2126', '\u03a9', '\u212a',
+               '\u1100', '\u1161', '\u11a8', '\uac00', '\uac01', '\u0958', '\u0915', '\u093c', '\ufb01', '\uff21', '\u2460', '1', '\U0001d400',
+               '\u00b5', '\u03bc', '\u00df', '\u017f', '\u0130', '\u0131', '\u03c3', '\u03c2', '\u03a3', '\u01c5']
+
+
+def equivalents(t):
+    """the other spellings of t under the four normalisation forms and the simple case operations (may be empty)"""
+    import unicodedata
+    out = []
+    for v in [unicodedata.normalize(f, t) for f in ('NFC', 'NFD', 'NFKC', 'NFKD')] + [t.lower(), t.upper(), t.casefold(), t.swapcase()]:
+        if v != t and v not in out:
+            out.append(v)
+    return out
+
+
+def gen_equivalence_pairs(ctx):
+    """texts over EQUIV_ATOMS x patterns derived from the text OR from an equivalent spelling of it (wildcards placed per code point)"""
+    rng = ctx.rng
+    pairs = []
+
+    def wild(s):
+        return ''.join(('_' if rng.random() < 0.3 else '%' if rng.random() < 0.1 else ch) for ch in s)
+
+    for _ in range(2500 if ctx.tier == 'quick' else 80000):
+        t = ''.join(rng.choice(EQUIV_ATOMS) for _ in range(rng.randint(1, 5)))
+        if rng.random() < 0.3:
+            t = rng.choice(['caf', 'x', '10 k', '']) + t
+        alts = equivalents(t)
+        u = rng.choice(alts) if alts else t
+        if rng.random() < 0.3:
+            t, u = u, t
+        form = rng.randrange(8)
+        if form == 0:
+            p = u                                  # an equivalent spelling as the pattern: every character stands only for itself
+        elif form == 1:
+            p = wild(u)
+        elif form == 2:
+            p = wild(t)
+        elif form == 3:
+            p = '_' * len(u)                       # as many characters as the OTHER spelling has
+        elif form == 4:
+            p = '_' * len(t)
+        elif form == 5:
+            k = rng.randint(0, len(u))
+            p = u[:k] + '%'
+        elif form == 6:
+            k = rng.randint(0, len(t))
+            p = rng.choice(['%', '']) + t[k:] if rng.random() < 0.5 else t[:k] + '_' * (len(t) - k)
+        else:
+            k = rng.randint(0, len(u))
+            p = '%' + u[k:]
+        pairs.append((t, p))
+    return pairs
+
+
 LIT_TOKENS = ['$$', '$&', '$`', '$1', '$<a>', '$0', '%', '_', '%', '_', 'a', 'b', '$', '&', '.', '*', '(', '[', '+', '?', '|', '^', '{0}', '{}']
 
 
@@ -150,7 +212,18 @@ def run_correspondence(ctx):
     ctx.rule = ('all (text, pattern) over the 14-letter alphabet {a b %% _ . * \\ [ ( ^ $ + ? |} up to length %s exhaustively, '
                 'structured random pairs up to length 5 (pattern derived from text), random Unicode pairs incl. LF/CR/U+2028; '
                 'non-trivial = distinct pair whose pattern contains %% or _ and whose text is non-empty') % ('2x2' if ctx.tier == 'quick' else '3x2 and 2x3')
-    cases = to_cases(pairs, ctx.rng) + gen_literal_cases(ctx)
+    eq_pairs = gen_equivalence_pairs(ctx)
+    for t, p in eq_pairs:
+        if equivalents(t) or equivalents(p):
+            ctx.stat('pairs_with_a_distinct_unicode_equivalent_spelling')
+    cases = to_cases(pairs + eq_pairs, ctx.rng) + gen_literal_cases(ctx)
+    # the same class with the pattern written as a string literal in the query text (non-ASCII text inside the rewritten query)
+    by_pat = {}
+    for t, p in eq_pairs[:len(eq_pairs) // 8]:
+        by_pat.setdefault(p, set()).update([t, p] + equivalents(t)[:2] + equivalents(p)[:2])
+    cases += [{'rows': [[t, p] for t in sorted(ts)], 'literal': p, 'quote': ctx.rng.choice(['"', "'"])} for p, ts in sorted(by_pat.items())]
+    ctx.rule += ('; Unicode equivalence class: texts over base letters + combining marks / precomposed letters / Hangul jamo and syllables / singleton and compatibility '
+                 'characters / special case mappings x patterns derived from the text or from a canonically / compatibility / case equivalent spelling of it')
     ctx.rule += '; patterns written as string literals in the query text (tokens incl. $$ $& $` $\' $1 {0} and the other quote) x texts derived from them'
     for fl, name in ((0, 'py'), (1, 'js')):
         cs = cases      # astral characters on both ports: `_` is one CHARACTER (rbql-js compiles its patterns with the u flag since D19)
